@@ -395,6 +395,65 @@ func (c *Ctx) streamChain(rule string) {
 							}
 						}
 					}
+					// … or inside a closure passed in the same call, which hands it unchanged to a stream-taking write
+					for _, a := range ci.Common().Args {
+						mc, ok := a.(*ssa.MakeClosure)
+						if !ok {
+							continue
+						}
+						cf, _ := mc.Fn.(*ssa.Function)
+						if cf == nil {
+							continue
+						}
+						for bi, bnd := range mc.Bindings {
+							isOwn := false
+							if p, isP := flow.Peel(bnd).(*ssa.Parameter); isP && paramIndex(f, p) == own {
+								isOwn = true
+							}
+							if al, isAl := bnd.(*ssa.Alloc); isAl {
+								// the parameter spilled for capture by reference: exactly one store, of the parameter
+								stores, fromParam := 0, false
+								for _, ref := range flow.Referrers(al) {
+									if st, isSt := ref.(*ssa.Store); isSt && st.Addr == ssa.Value(al) {
+										stores++
+										if p, isP := flow.Peel(st.Val).(*ssa.Parameter); isP && paramIndex(f, p) == own {
+											fromParam = true
+										}
+									}
+								}
+								isOwn = stores == 1 && fromParam
+							}
+							if !isOwn || bi >= len(cf.FreeVars) {
+								continue
+							}
+							fv := cf.FreeVars[bi]
+							for _, cj := range flow.CallInstrs(cf) {
+								o := flow.CalleeObj(cj)
+								if o == nil {
+									continue
+								}
+								csig, _ := o.Type().(*types.Signature)
+								if csig == nil {
+									continue
+								}
+								if sp := streamParam(csig); sp >= 0 {
+									cargs := cj.Common().Args
+									if !cj.Common().IsInvoke() && csig.Recv() != nil {
+										sp++
+									}
+									if sp < len(cargs) {
+										av := flow.Peel(cargs[sp])
+										if ld, isLd := av.(*ssa.UnOp); isLd && ld.Op == token.MUL {
+											av = ld.X
+										}
+										if av == ssa.Value(fv) {
+											inObj = true
+										}
+									}
+								}
+							}
+						}
+					}
 					if inObj {
 						continue
 					}
